@@ -11,7 +11,7 @@ MAX_IDS = 12
 
 def modelled(sc: dict) -> bool:
     """the scenarios Runner speaks about: one worker, up to three queues, in-memory broker, plain outcomes, no recurrence / ttl"""
-    if sc.get("backend", "inmem") != "inmem" or sc.get("kill") or sc.get("nworkers", 1) != 1:
+    if sc.get("kill") or sc.get("nworkers", 1) != 1:
         return False
     if len({a.get("queue", "default") for a in sc["actors"].values()}) > 3 or len(sc["jobs"]) > MAX_IDS:
         return False
@@ -43,12 +43,16 @@ def project(trace: list[dict], sc: dict) -> list[dict] | None:
     out: list[dict] = []
     seen: set[int] = set()
     fin_moves: dict[int, list[int]] = {}
+    last: dict[int, list] = {}
+    last_prev: dict[int, list | None] = {}
     for e in trace:
         k = e["e"]
         if k == "begin":
             calls[e["k"]] = e
         elif k == "move":
             i, v = e["i"], e["v"]
+            prev, last[i] = last.get(i), v
+            last_prev[i] = prev
             if i > MAX_IDS:
                 return None
             cl = calls.get(e.get("k", 0), {})
@@ -62,13 +66,17 @@ def project(trace: list[dict], sc: dict) -> list[dict] | None:
             elif v[3] == 1 and e.get("c") in wcons and op in ("consume", "start", None):
                 out.append({"e": "take", "i": i})
             elif op in ("ack", "nack", "requeue") and cl.get("i") == i:
+                if op == "requeue" and not any(v):
+                    continue              # (remove-then-add requeue of RabbitMQ: the message reappears with the second move)
                 out.append({"e": "report", "i": i, "op": op})
             elif op == "reject" and cl.get("i") == i:
                 out.append({"e": "giveback", "i": i})
             elif op == "finish":
                 fin_moves.setdefault(e["k"], []).append(i)
-            elif v[3] == 0 and sum(v) == 1 and op in ("consume", "start", None):
+            elif v[3] == 0 and sum(v) == 1 and op in ("consume", "start", None) and (last_prev.get(i) or [0, 0, 0, 0])[3] == 0:
                 pass                      # promotion of a delayed retry: the model keeps it in q all along
+            elif v[3] == 0 and sum(v) == 1 and not v[2] and op in ("consume", "start", None) and e.get("c") in wcons:
+                out.append({"e": "cback", "i": i})      # the consumer itself gives back a message it had fetched
             else:
                 return None               # something the model has no word for (dead-lettering by expiry, a foreign client, ...)
         elif k == "end":
@@ -91,8 +99,12 @@ def project(trace: list[dict], sc: dict) -> list[dict] | None:
             out.append({"e": "ret"})
     n = max(seen) if seen else 0
     # retries per message: from the job that carries the id (ids are numbered in order of first appearance)
+    be = sc.get("backend", "inmem")
+    # in-memory: consume() takes from the broker itself; Redis / RabbitMQ: a background fetch fills a local queue; what
+    # finish() returns: everything the consumer took and nobody settled (in-memory, RabbitMQ), or its local queue only (Redis)
     cfg = {"e": "cfg", "tl": int(wcfg["tl"]), "ml": int(wcfg["ml"]), "nq": len(qmap), "maxr": [maxr.get(i, 0) for i in range(1, n + 1)],
-           "qof": [qof.get(i, 1) for i in range(1, n + 1)]}
+           "qof": [qof.get(i, 1) for i in range(1, n + 1)], "pf": 0 if be == "inmem" else max(1, min(int(wcfg["tl"]), 1000)),
+           "fm": "local" if be == "redis" else "taken"}
     return [cfg] + out
 
 
@@ -147,20 +159,31 @@ def run_part(ck, scs: list[dict], traces: list[list[dict]]) -> None:
     # is the run a behaviour of Runner's actions that breaks one of this property's invariants (a violation), or not a
     # behaviour of Runner at all (the code no longer has the shape that was model-checked: drift, reported as a note)?
     own = {"C03": "ProgressC03", "C09": "ProgressC09", "C10": "ProgressC10"}.get(ck.pid)
-    viol = set()
-    if own:
-        v0 = tlc.validate_traces("Trace_Runner", "Trace_Runner_ProgressOnly.cfg", [proj[k] for k in rej])
-        behav = [rej[j] for j in v0.accepted]
-        if behav:
-            v1 = tlc.validate_traces("Trace_Runner", f"Trace_Runner_{own}.cfg", [proj[k] for k in behav])
-            ck.add_tlc(v1.result, f"re-validation of rejected runs with only the invariants of {ck.pid}")
-            viol = {behav[j] for j in v1.rejected}
-            for j in sorted(v1.rejected)[:5]:
-                k = behav[j]
-                pos = v1.rejected[j]
-                ck.violation(f"worker run follows Runner's actions but breaks its invariant for {ck.pid} at event {pos}: {proj[k][pos - 1] if pos <= len(proj[k]) else 'end'}",
-                             {"check": "worker", "scenario": scs[idx[k]], "rejected_at": pos, "context": proj[k][max(0, pos - 10):pos]})
-    for k in [k for k in rej if k not in viol][:8]:
+    v0 = tlc.validate_traces("Trace_Runner", "Trace_Runner_ProgressOnly.cfg", [proj[k] for k in rej], timeout=600)
+    behav = [rej[j] for j in v0.accepted]          # behaviours of Runner's actions that break some invariant
+    drift = [rej[j] for j in v0.rejected]
+    if own and behav:
+        v1 = tlc.validate_traces("Trace_Runner", f"Trace_Runner_{own}.cfg", [proj[k] for k in behav], timeout=600)
+        ck.add_tlc(v1.result, f"re-validation of rejected runs with only the invariants of {ck.pid}")
+        mine = [behav[j] for j in v1.rejected]
+        known_redis = set()
+        if ck.pid == "C03" and mine:
+            # the Redis consumer's finish() returns only its local queue (known finding redis-stop-leaves-in-flight): such a
+            # run breaks AtReturn and nothing else
+            v2 = tlc.validate_traces("Trace_Runner", "Trace_Runner_ProgressC03noAR.cfg", [proj[k] for k in mine], timeout=600)
+            known_redis = {mine[j] for j in v2.accepted if scs[idx[mine[j]]].get("backend") == "redis"}
+            from checks.common import known_for
+            if known_redis and any(kf["id"] == "redis-stop-leaves-in-flight" for kf in known_for("C03")):
+                for _ in known_redis:
+                    ck.known("redis-stop-leaves-in-flight")
+            else:
+                known_redis = set()
+        for k in [k for k in mine if k not in known_redis][:5]:
+            pos = v.rejected[k]
+            ck.violation(f"worker run follows Runner's actions but breaks its invariant for {ck.pid} at event {pos}: {proj[k][pos - 1] if pos <= len(proj[k]) else 'end'}",
+                         {"check": "worker", "scenario": scs[idx[k]], "rejected_at": pos, "context": proj[k][max(0, pos - 10):pos]})
+        ck.notes["runner_traces_other_invariants"] = len(behav) - len(mine)
+    for k in drift[:8]:
         pos = v.rejected[k]
         ck.drift.append({"note": "recorded worker run is not a behaviour of Runner.tla: the runner no longer has the shape that was model-checked",
                          "scenario": scs[idx[k]], "rejected_at": pos, "event": proj[k][pos - 1] if pos <= len(proj[k]) else "end",
